@@ -133,7 +133,7 @@ func scenario(name string, in input, sequential bool) *engine.Scenario {
 	tr := &udpx.Trace{}
 	sc := &engine.Scenario{Name: name, Opt: vrt.Options{Horizon: udpx.Horizon}}
 	sc.Body = func() {
-		udpx.Run(udpx.Config{Keys: udpx.DefaultKeys(), NatTimeout: in.Timeout, Listeners: in.Listeners}, in.Ops, tr)
+		udpx.Run(udpx.Config{Keys: udpx.DefaultKeys(), NatTimeout: in.Timeout, Listeners: in.Listeners, DualStack: in.Listeners <= 1}, in.Ops, tr)
 	}
 	sc.Check = func(x *vrt.Exec) (string, bool, []*engine.Finding) {
 		fs := hk.Generic(x, hk.Opts{})
@@ -149,7 +149,7 @@ func scenario(name string, in input, sequential bool) *engine.Scenario {
 			obs, more = c03.Oracle(tr, name, 65000)
 			for _, f := range more {
 				switch f.Sig {
-				case "source-changed", "extra-socket", "socket-count", "association-without-auth", "reply-misdelivered", "reply-without-association", "unsolicited-to-client":
+				case "source-changed", "extra-socket", "socket-count", "association-without-auth", "reply-misdelivered", "reply-without-association", "unsolicited-to-client", "reply-lost":
 					fs = append(fs, f)
 				}
 			}
@@ -206,6 +206,9 @@ func menu() []udpx.Op {
 		udpx.Op{K: "S", C: 2, Key: 2, T: 1, N: 4, Mod: "broadcast"}, udpx.Op{K: "S", C: 1, Key: 1, T: 1, N: 4, Mod: "empty-domain"})
 	// two clients that differ only in the IPv6 zone of their address
 	m = append(m, udpx.Op{K: "S", C: 4, Key: 1, T: 1, N: 20}, udpx.Op{K: "S", C: 5, Key: 1, T: 1, N: 20}, udpx.Op{K: "R", C: 4, T: 1, N: 16}, udpx.Op{K: "R", C: 5, T: 1, N: 16})
+	// a datagram arriving at a client's source address from a host of the other address family,
+	// and a datagram on the client's live association that does not decrypt (the association stays)
+	m = append(m, udpx.Op{K: "R", C: 0, T: 2, N: 10}, udpx.Op{K: "S", C: 0, Key: 0, T: 1, N: 7, Mod: "flip"})
 	m = append(m, udpx.Op{K: "A", D: 9 * time.Second}, udpx.Op{K: "A", D: 11 * time.Second})
 	return m
 }
